@@ -36,6 +36,18 @@ type sessCfg struct {
 	// Teaser: the reference peer delays its garbage until it knows its own terminator and makes the garbage end in
 	// (and contain) proper prefixes of that terminator, preferably of a length m with T[m] == T[0]
 	Teaser bool `json:"peer_garbage_ends_in_terminator_prefix,omitempty"`
+	// Reserved: the reference peer sets random values in the seven reserved header bits of about half of its packets
+	// (decoys, version packet and messages alike); a receiver must look at the ignore bit only
+	Reserved bool `json:"peer_sets_reserved_header_bits,omitempty"`
+}
+
+func reservedSource(r *mon.Rand) func() byte {
+	return func() byte {
+		if r.Bool() {
+			return 0
+		}
+		return byte(1 + r.Intn(127))
+	}
 }
 
 // teaserGarbage rewrites the tail (and a few inner places) of g with proper prefixes of the terminator.
@@ -269,6 +281,9 @@ func handshakeRealRef(k *mon.Case, cfg sessCfg, realInit bool) *session {
 		}
 		rk := pooledRefKey(k.C, r)
 		s.ref = ref.NewEndpoint(s.refConn, false, magic, rk.priv, rk.enc)
+		if cfg.Reserved {
+			s.ref.ReservedBits = reservedSource(r.Fork())
+		}
 		if err := s.ref.DetectV1(); err != nil {
 			return failRef("DetectV1", err)
 		}
@@ -309,6 +324,9 @@ func handshakeRealRef(k *mon.Case, cfg sessCfg, realInit bool) *session {
 			rk = pooledRefKey(k.C, r)
 		}
 		s.ref = ref.NewEndpoint(s.refConn, true, magic, rk.priv, rk.enc)
+		if cfg.Reserved {
+			s.ref.ReservedBits = reservedSource(r.Fork())
+		}
 		if cfg.Teaser {
 			// the initiator's key goes out alone; its garbage follows once the responder's key is known
 			if err := s.ref.SendKey(nil); err != nil {
@@ -384,6 +402,9 @@ func handshakeRealRef(k *mon.Case, cfg sessCfg, realInit bool) *session {
 		k.Failf("handshake:real-left-bytes-unread", "%s: %d handshake bytes not consumed by CompleteHandshake", mode, s.realConn.Buffered())
 	}
 	k.Count("handshake.ok."+mode, 1)
+	if cfg.Reserved && s.ref.ReservedSent > 0 {
+		k.Count("handshake.ok.peer-set-reserved-header-bits", 1)
+	}
 	k.Count(fmt.Sprintf("handshake.peer-garbage.%s", lenClass(refGarbage)), 1)
 	k.Count(fmt.Sprintf("handshake.own-garbage.%s", lenClass(realGarbage)), 1)
 	k.Count(fmt.Sprintf("handshake.decoys.%d", len(realDecoys)), 1)
@@ -496,6 +517,7 @@ func (s *session) runStreams(k *mon.Case, fromReal, fromRef []packet) bool {
 		k.Failf("stream:bytes-left-over", "after all packets were received %d/%d bytes remain buffered", s.realConn.Buffered(), s.refConn.Buffered())
 		return false
 	}
+	k.Count("stream.packets.peer-set-reserved-header-bits", int64(s.ref.ReservedSent))
 	return true
 }
 
@@ -503,7 +525,7 @@ func rekeys(n int) int { return n / ref.RekeyInterval }
 
 func genSessCfg(r *mon.Rand, mode string, lo, hi int) sessCfg {
 	cfg := sessCfg{Mode: mode, GarbageI: genGarbageLen(r), GarbageR: genGarbageLen(r), DecoysI: genDecoys(r), DecoysR: genDecoys(r),
-		Frag: r.Chance(1, 3)}
+		Frag: r.Chance(1, 3), Reserved: mode != "real-real" && r.Chance(1, 3)}
 	if r.Chance(2, 3) {
 		cfg.Magic = wellKnownMagics[r.Intn(len(wellKnownMagics))]
 	} else {
@@ -778,4 +800,6 @@ func sessionFamilies(c *mon.Ctx) {
 	c.Require("stream.sessions.real-real", 10)
 	c.Require("stream.sessions.3+rekeys-both-directions", 30)
 	c.Require("stream.maxlen", 1)
+	c.Require("handshake.ok.peer-set-reserved-header-bits", 50)
+	c.Require("stream.packets.peer-set-reserved-header-bits", 500)
 }
